@@ -211,6 +211,28 @@ fn big_doc(t: &mut Tape, env: &Env, n: usize, erroneous: bool) -> String {
     s
 }
 
+/// an erroneous text (printed unchanged) whose last line is long and not terminated: what a line-buffered
+/// writer still holds when the text ends (seeded change C16-7: `write` instead of `write_all`)
+fn long_tail(t: &mut Tape, n: usize) -> String {
+    let len = match t.weighted(&[2, 3, 2, 1]) {
+        0 => t.range(200, 1023),
+        1 => t.range(1024, 9000),
+        2 => t.range(9000, 70_000),
+        _ => t.range(70_000, 200_000),
+    };
+    let head = match t.below(3) {
+        0 => String::new(),
+        1 => format!("#let MARK{n} = 1\n"),
+        _ => format!("= Title {n}\n\nSome text.\n"),
+    };
+    let unit = t.pick(&["lorem ipsum ", "\u{1f600}\u{65e5}\u{672c} ", "x", "word, "]);
+    let mut s = format!("{head}#f(MARK{n} ");
+    while s.len() < head.len() + len {
+        s.push_str(unit);
+    }
+    s
+}
+
 fn gen_content(t: &mut Tape, env: &Env, n: usize, column: usize) -> (Content, &'static str) {
     let (c, class) = gen_content_base(t, env, n, column);
     // spellings that differ from the formatted text only in line ends / final newline / trailing blanks
@@ -240,6 +262,7 @@ fn gen_content_base(t: &mut Tape, env: &Env, n: usize, column: usize) -> (Conten
                 _ => (Content::Text(s), "unformatted"),
             }
         }
+        2 if t.chance(64) => (Content::Text(long_tail(t, n)), "erroneous+long-unterminated-last-line"),
         2 => (Content::Text(fill(t.pick(ERRONEOUS), n)), "erroneous"),
         3 => (Content::Text(String::new()), "empty"),
         4 => (Content::Text(format!("#let MARK{n} = 1")), "no-final-newline"),
@@ -434,6 +457,10 @@ fn gen_invocation(t: &mut Tape, env: &Env, tree: &Tree, which: CliWhich, column:
         1 => {
             let s = match t.weighted(&[4, 4, 4, 4, 1]) {
                 0 => fill(t.pick(UNFORMATTED), 99),
+                1 if t.chance(64) => {
+                    st.label("stdin:erroneous+long-unterminated-last-line");
+                    long_tail(t, 99)
+                }
                 1 => fill(t.pick(ERRONEOUS), 99),
                 2 => "#let MARK99 = 1".to_string(),
                 3 => option_sensitive(t, 99, column),
